@@ -185,7 +185,7 @@ func c13Batches(r *vf.Run, sid string, sp *serverProc, rng *rand.Rand, pool []c0
 		if b%15 == 0 {
 			size = 0
 		}
-		if b%10 == 7 {
+		if b%11 == 7 {
 			size = []int{64, 65, 66, 100, 128, 129, 257, 300}[rng.Intn(8)] // large batches
 			r.Count("batches_over_64_queries", 1)
 		}
